@@ -13,9 +13,9 @@ namespace MayVerif.Park
 
 @[grind =] theorem upd_apply {α : Type} (f : Nat → α) (t : Nat) (v : α) (u : Nat) : upd f t v u = if u = t then v else f u := rfl
 
-@[grind] def kPre : KPc → Bool | .k5 | .k0 | .k1 | .k2 => true | _ => false
+@[grind] def kPre : KPc → Bool | .k5d | .k5 | .k5x | .k0 | .k1 | .k2 => true | _ => false
 /-- the kernel tail has set `wait_kernel` and not yet cleared it -/
-@[grind] def kAct : KPc → Bool | .kidle | .k5 | .k0 | .k1 => false | _ => true
+@[grind] def kAct : KPc → Bool | .kidle | .k5d | .k5 | .k5x | .k0 | .k1 => false | _ => true
 /-- the kernel tail is past its re-check of `state` with the answer "not set" (or done) -/
 @[grind] def kPast : KPc → Bool | .kidle | .k5c | .kc3 | .kc4 | .k6 => true | _ => false
 /-- the parker has consumed the token after its resume and is on its way out of the park call -/
@@ -56,7 +56,7 @@ def pgrp : PPc → Nat
   | .u2store | .u3chk | .u3wait | .u4chk | .u4cst | .u5load | .u5store | .u5swap | .u6 | .u7 => 1
   | _ => 2
 def kgrp : KPc → Nat
-  | .kidle | .k5 | .k0 | .k1 | .k2 | .k3 => 0
+  | .kidle | .k5d | .k5 | .k5x | .k0 | .k1 | .k2 | .k3 => 0
   | _ => 1
 
 structure Inv (s : St) : Prop where
@@ -94,7 +94,7 @@ structure Inv (s : St) : Prop where
   r1 : s.rnd ≤ 1 → (s.stale = 0 ∧ s.tpc ≠ .t0 false)
   pown : s.para = .timedOut → (s.paraOwn = true ∨ 1 < s.rnd)
   plive : s.para ≠ .none → paraLive s.ppc = true
-  tm1 : (s.ppc = .u3chk ∨ s.kpc = .k5 ∨ s.kpc = .k0) → s.tmo = s.dur
+  tm1 : (s.ppc = .u3chk ∨ s.kpc = .k5d ∨ s.kpc = .k5 ∨ s.kpc = .k5x ∨ s.kpc = .k0) → s.tmo = s.dur
   tm2 : (s.own ≠ .none ∨ s.tpc = .t0 true) → s.dur ≠ 0
   tm3 : (s.para = .timedOut ∧ s.paraOwn = true) → s.dur ≠ 0
   tm4 : preYield s.ppc = true → s.own ≠ .delreq
